@@ -143,6 +143,16 @@ CHECKS = {
         engine="p11sh built in the variants ossl-plain and botan-plain; SQLite lanes use in-place restoring snapshots",
         note="Mechanisms are intersected over both backends' C_GetMechanismList; single DES is excluded when a backend cannot execute it (OpenSSL 3 without legacy "
              "provider on this image); five known findings (empty-input decrypt with Botan) are listed in known_findings.json."),
+    "C16": dict(
+        category="fault_enumeration", design_ref="DESIGN.md 3/C16",
+        technique="exhaustive crash-point enumeration on the real library under a ptrace controller (fsx): the token directory is captured before every mutating file-system syscall of every writing call, and every distinct crash state is recovered by a fresh process and judged against the old and the new observation",
+        text="18 writing calls (create, set, destroy, copy, generate key / key pair, unwrap, derive, three kinds of login, SetPIN user/SO, InitPIN, InitToken re-init and on "
+             "the free slot) yield ~990 crash points / ~300 distinct directory states; for each one C_Initialize must return, the other token and all untouched "
+             "objects and PINs must be identical, a PIN being changed must accept exactly old or new, the written object must be absent/old/new, no other object may "
+             "be visible, and the token must stay writable.",
+        engine="fsx (ptrace syscall tracer) + p11sh",
+        note="Fault model: process death (completed syscalls are durable; no torn or reordered writes); 38 crash states of the in-place rewrite / multi-transaction "
+             "creation protocol are genuine defects recorded in known_findings.json, every other signature raises a VIOLATION."),
 }
 
 NOT_YET = "check under construction in this session; not claimed yet (DESIGN.md Appendix D gives the build order)"
@@ -168,7 +178,7 @@ def main():
         })
     m = {
         "version": 1,
-        "setup_cmd": "python3 tools/build_sut.py ossl-asan ossl-plain botan-plain ref",
+        "setup_cmd": "python3 tools/build_sut.py ossl-asan ossl-plain botan-plain ref fsx",
         "hooks": {"guard": "SOFTHSM_VERIF", "enable": "tools/build_sut.py passes -DSOFTHSM_VERIF to every variant it compiles from /repo's working tree",
                   "baseline_off_cmd": "cmake --build /repo/_build && ctest --test-dir /repo/_build -j8 --timeout 900",
                   "source_commits": [], "fix_commits": ["6bd3dce", "e87af21", "bea9994", "588c9b7", "ceb5015", "38ed9d5", "d3eb7f4", "bf60869", "58c10b5", "813a6d6", "2adb934", "9affe31", "8d94e13", "fd7cd14", "084c459"], "add_only": True},
